@@ -1,9 +1,10 @@
 //! Bounded stand-in / failing-input search for unit U5 (runner, stop reasons, progress measure) — NOT a proof.
 //! host: src/run/runner.rs
+//! functions: Runner::run RunnerLimits::check_limits apply_rewrites run_eqsat
 //! Bound: 12 start terms (≤ 9 nodes each) × 9 rule subsets of a 19-rule lambda/arithmetic system, ≤ 4 rounds of
 //! apply_rewrites each, and the same terms × 77 sequences that apply ONE rule per round (so that a round can add just one
 //! generator to an already symmetric class, or just one redundancy); Runner::run / run_eqsat with iter limits {0, 1, 2, 3}, node limits {0, 6, 10_000}, time limits
-//! {0 s, 60 s} and hooks failing at round {never, 0, 1, 2}; check_limits on 4 × 4 × 2 hand-made limit triples.
+//! {0 s, 60 s} and hooks failing at round {never, 0, 1, 2}; Runner::run with three hooks under 6 failure plans; check_limits on 4 × 4 × 2 hand-made limit triples.
 //! The fingerprint is computed without the progress measure and without the hash-cons size: nodes per class via
 //! `enodes`, the equality partition of the tracked subterms via `eq`, slots per class via `slots`, self-symmetries per
 //! class by trying every permutation of its slots (≤ 5 slots) through `eq`.
@@ -242,6 +243,41 @@ pub fn run(only: &[String]) -> Vec<String> {
             }
             if let Some((c, m)) = bad { if n < 3 { n += 1; fails.push(format!("FAIL Runner::run {} {}: {}", c, desc, m)); } }
         }}}}}}
+    }
+
+    if want("Runner::run") || want("Runner::run_one") {
+        // several hooks: the first error any hook returns ends the run in that iteration and is the reported reason
+        let mut n = 0;
+        for t in terms() { for idx in [vec![0usize, 1], vec![11], vec![0, 1, 2, 5, 6]] { for limits in [(8usize, 10_000usize), (2, 10_000), (8, 8)] { for plan in [[1usize, usize::MAX, usize::MAX], [usize::MAX, 2, usize::MAX], [2, usize::MAX, 1], [3, 1, usize::MAX], [usize::MAX, usize::MAX, 0], [0, 0, 0]] {
+            verif_case(format!("Runner with three hooks: term {} rules {:?} iter_limit {} node_limit {} hooks fail at their call {:?}", t, idx, limits.0, limits.1, plan));
+            let (eg, _tracked) = start(t);
+            let mut runner: Runner<RL, (), (), String> = Runner::new(()).with_egraph(eg).with_iter_limit(limits.0).with_node_limit(limits.1);
+            let first_err: std::rc::Rc<std::cell::RefCell<Option<String>>> = Default::default();
+            let calls_after_err = std::rc::Rc::new(std::cell::Cell::new(0usize));
+            for (h, fail_at) in plan.iter().enumerate() {
+                let fail_at = *fail_at;
+                let fe = first_err.clone();
+                let cae = calls_after_err.clone();
+                let mut my_calls = 0usize;
+                runner = runner.with_hook(move |_r| {
+                    if fe.borrow().is_some() { cae.set(cae.get() + 1); }
+                    let c = my_calls; my_calls += 1;
+                    if c == fail_at { let e = format!("hook {} failed at its call {}", h, c); if fe.borrow().is_none() { *fe.borrow_mut() = Some(e.clone()); } Err(e) } else { Ok(()) }
+                });
+            }
+            let report = runner.run(&mk_rules(&idx));
+            let desc = format!("three hooks: term {} rules {:?} iter_limit {} node_limit {} hooks fail at their call {:?}", t, idx, limits.0, limits.1, plan);
+            let fe = first_err.borrow().clone();
+            let mut bad: Option<(&str, String)> = None;
+            match (&report.stop_reason, &fe) {
+                (StopReason::Other(m), Some(e)) => { if m != e { bad = Some(("C15:run.hook-failure-true", format!("stop reason Other({}) but the first hook failure was {}", m, e))); } }
+                (StopReason::Other(m), None) => { bad = Some(("C15:run.hook-failure-true", format!("stop reason Other({}) but no hook failed", m))); }
+                (other, Some(e)) => { bad = Some(("C15:run.hook-failure-reported", format!("{} but the run went on and stopped as {:?} after {} iterations", e, other, report.iterations))); }
+                (_, None) => {}
+            }
+            if bad.is_none() && calls_after_err.get() > 0 { bad = Some(("C15:run.hook-failure-reported", format!("hooks were called {} more times after {}", calls_after_err.get(), fe.clone().unwrap_or_default()))); }
+            if let Some((c, m)) = bad { if n < 3 { n += 1; fails.push(format!("FAIL Runner::run {} {}: {}", c, desc, m)); } }
+        }}}}
     }
 
     if want("run_eqsat") {
